@@ -20,19 +20,23 @@ Proof. reflexivity. Qed.
 Ltac tie_child :=
   change (LC 0) with 33%nat; change (LC 1) with 4%nat; change (LC 2) with 1%nat;
   change (LC 3) with 2%nat; change (LC 4) with 2%nat; change (LC 7) with 32%nat;
-  change (LC 8) with 32%nat; change (LC 11) with 4%nat; change (LC 12) with 1%nat.
+  change (LC 8) with 32%nat; change (LC 11) with 4%nat; change (LC 12) with 1%nat;
+  rewrite ?child_oor_eq.
 Ltac tie_child_in H :=
   change (LC 0) with 33%nat in H; change (LC 1) with 4%nat in H; change (LC 2) with 1%nat in H;
   change (LC 3) with 2%nat in H; change (LC 4) with 2%nat in H; change (LC 7) with 32%nat in H;
-  change (LC 8) with 32%nat in H; change (LC 11) with 4%nat in H; change (LC 12) with 1%nat in H.
+  change (LC 8) with 32%nat in H; change (LC 11) with 4%nat in H; change (LC 12) with 1%nat in H;
+  rewrite ?child_oor_eq in H.
 Ltac tie_master :=
   change (LM 0) with 2%nat; change (LM 1) with 2%nat; change (LM 4) with 0%nat;
   change (LM 5) with 0%nat; change (LM 6) with 0%nat; change (LM 7) with 0%nat;
-  change (LM 8) with 0%nat; change (LM 9) with 0%nat.
+  change (LM 8) with 0%nat; change (LM 9) with 0%nat;
+  rewrite ?master_oor_eq.
 Ltac tie_master_in H :=
   change (LM 0) with 2%nat in H; change (LM 1) with 2%nat in H; change (LM 4) with 0%nat in H;
   change (LM 5) with 0%nat in H; change (LM 6) with 0%nat in H; change (LM 7) with 0%nat in H;
-  change (LM 8) with 0%nat in H; change (LM 9) with 0%nat in H.
+  change (LM 8) with 0%nat in H; change (LM 9) with 0%nat in H;
+  rewrite ?master_oor_eq in H.
 Ltac tie_string :=
   change (LS 0) with 0%nat; change (LS 1) with 4%nat; change (LS 4) with 0%nat;
   change (LS 5) with 32%nat; change (LS 6) with 4%nat.
